@@ -97,6 +97,45 @@ Lemma tie_client_install c h pt :
   else interp_install CLIENT_INSTALL_HEAD None c conn.
 Proof. unfold codec_of. destruct c as [p cn hd st]. cbn [cc_head cc_conn cc_stream]. destruct hd, pt; reflexivity. Qed.
 
+(* ---- (b'') the connection type: what encode installs from the request head, and what decode
+        takes from the peer's Connection header ("do not use peer's keep-alive") ------------- *)
+Definition interp_peer (p : peer_conn) (own : ctype) (peer : option ctype) : ctype :=
+  match peer with
+  | None => own                                     (* `if let Some(conn_type) = req.conn_type()` *)
+  | Some ct =>
+      match p with
+      | PeerAlways => ct
+      | PeerDowngradeOnly => match ct with CKeepAlive => own | _ => ct end
+      end
+  end.
+
+Lemma tie_peer_conn c h pt :
+  cc_conn (codec_of c h pt) = interp_peer CLIENT_PEER_CONN (cc_conn c) (rh_conn_type h).
+Proof.
+  unfold codec_of. cbn [CLIENT_PEER_CONN interp_peer].
+  destruct (negb (cc_head c)); [destruct pt|]; cbn [cc_conn];
+    destruct (rh_conn_type h) as [[| |]|]; reflexivity.
+Qed.
+
+Definition enc_pat_of (rc : ctype) : enc_pat :=
+  match rc with CKeepAlive => EcKeepAlive | CUpgrade => EcUpgrade | CClose => EcClose end.
+Definition enc_pat_eqb (a b : enc_pat) : bool :=
+  match a, b with EcKeepAlive, EcKeepAlive | EcUpgrade, EcUpgrade | EcClose, EcClose => true | _, _ => false end.
+Fixpoint lookup_enc (p : enc_pat) (l : list (enc_pat * enc_res)) : enc_res :=
+  match l with [] => EcToClose | (q, r) :: t => if enc_pat_eqb p q then r else lookup_enc p t end.
+Definition interp_enc (r : enc_res) (ka_enabled : bool) : ctype :=
+  match r with
+  | EcKeepAliveIfEnabled => if ka_enabled then CKeepAlive else CClose
+  | EcToUpgrade => CUpgrade
+  | EcToClose => CClose
+  | EcToKeepAlive => CKeepAlive
+  end.
+
+(* ServiceConfig::default(): KEEP_ALIVE_ENABLED is set *)
+Lemma tie_encode_conn is_head rc :
+  cc_conn (codec_after_encode is_head rc) = interp_enc (lookup_enc (enc_pat_of rc) CLIENT_ENCODE_CONN) true.
+Proof. destruct rc; reflexivity. Qed.
+
 (* ---- (b') ClientPayloadCodec::decode and decode_eof --------------------------------------- *)
 Definition pc_pat_of (it : option pitem) : pc_pat :=
   match it with Some (PChunk _) => PcChunk | Some PEof => PcEof | None => PcNone end.
